@@ -88,13 +88,20 @@ var c06Laws = []c06law{
 		func(x, y float64) []LValue {
 			return []LValue{sep, n_(1), sep, LTrue, n_(x), sep, n_(y), sep, s_("dead")}
 		}},
+	// "normal" is seen by everybody, not only the direct child; a normal coroutine cannot be resumed
+	{`local A, B, C
+	  A = coroutine.create(function() B = coroutine.create(function() C = coroutine.create(function() emit(coroutine.status(A), coroutine.status(B), coroutine.status(C)); emit((coroutine.resume(A))); emit((coroutine.resume(B))) end); coroutine.resume(C); emit('b-end') end); coroutine.resume(B); emit('a-end'); return x end)
+	  emit(coroutine.resume(A)); emit(coroutine.status(A), coroutine.status(B), coroutine.status(C))`,
+		func(x, y float64) []LValue {
+			return []LValue{sep, s_("normal"), s_("normal"), s_("running"), sep, LFalse, sep, LFalse, sep, s_("b-end"), sep, s_("a-end"), sep, LTrue, n_(x), sep, s_("dead"), s_("dead"), s_("dead")}
+		}},
 }
 
 var sep LValue = LString("\x00sep")
 
 // C06.laws — coroutine value transfer, status and error laws with symbolic payloads.
 //
-//verif:harness prop=C06 tier=quick bounds="12 law templates (<= 3 coroutines, <= 6 resumes each): transfer in both directions with 0..3 values, status incl. normal/running, errors and faults inside coroutines, wrap, generators, nested resumes, dead/running resume, tail-called yield; payloads 2 symbolic float64"
+//verif:harness prop=C06 tier=quick bounds="13 law templates (<= 3 coroutines, <= 6 resumes each): transfer in both directions with 0..3 values, status incl. normal/running, errors and faults inside coroutines, wrap, generators, nested resumes, dead/running resume, tail-called yield; payloads 2 symbolic float64"
 func H_C06_laws() {
 	k := VChoice(len(c06Laws))
 	law := c06Laws[k]
